@@ -48,10 +48,13 @@ def check(col, prog, tier, profile, fixture=None):
     sfx = "" if profile == "dev" else "@" + profile
     fk = util.fkey
     adt = util.need_adt(crate, "Tensor")
-    names = [f["name"] for f in util.fields_of(adt)]
-    if "dims" not in names or "data" not in names:
+    # the two private fields by what they are (the extents: an array of usize; the elements: a Vec), not by name
+    ftys = [str(f["ty"]).replace("alloc::", "std::") for f in util.fields_of(adt)]
+    dims_ = [i for i, t in enumerate(ftys) if t.startswith("[usize;")]
+    data_ = [i for i, t in enumerate(ftys) if t.startswith("std::vec::Vec<")]
+    if len(dims_) != 1 or len(data_) != 1:
         raise Anchor("Tensor is expected to have fields dims and data")
-    DIMS, DATA = names.index("dims"), names.index("data")
+    DIMS, DATA = dims_[0], data_[0]
     gi = util.need_body(crate, "Tensor::<T, D>::get_index")
     col.rule("Y1" + sfx, "every iteration of the flattening loop entails idx[i] < dims[i] for the i it uses; loop covers 0..D", floor=2)
     col.rule("Y2" + sfx, "the data vector is indexed only by the flattening routine's result", floor=2)
@@ -86,7 +89,8 @@ def _range_form(col, I, gi, selfp, idxp, DIMS, sfx, backs):
         for l, v in st.env.items():
             if isinstance(v, tuple) and v and v[0] == "rangeiter":
                 rng = v
-    D = ("gparam", "D")
+    gn_ = util.generic_names(gi.crate, "Tensor")
+    D = ("gparam", gn_[-1] if gn_ else "D")   # the rank: Tensor's const parameter, whatever it is called
     if rng is None or rng[1] != mk_int(0) or rng[2] != D:
         col.violation("Y1" + sfx, "%s|range" % fk(gi), gi.loc(), "the flattening loop does not range over all dimensions 0..D (found %s)" % (tstr(rng) if rng else "no range iterator"))
     else:
